@@ -47,6 +47,8 @@ CONSTANTS Ops,          \* operator names explored
           OTermTimes,   \* ticks at which the outer may terminate
           OTerms,       \* subset of {"C", "E", "U"} (U: the outer never terminates)
           DspTicks,     \* the subscriber disposes half a tick after one of these ticks ({} = never)
+          Takes,        \* the result is cut by take(k), k in Takes (k >= 1; {} = no take): termination from downstream
+                        \* in the middle of a notification
           Faults,       \* TRUE: mappers may raise
           FAll,         \* TRUE: every mapper table; FALSE: the identity table (and, if Faults, with one raising entry)
           RG,           \* TRUE: outer tokens form a restricted-growth string (symmetry cut for "gen" tables)
@@ -84,8 +86,9 @@ TabOf(name) ==
     [] name = "never" -> << <<N(1), N(2)>>, <<N(0), C(1)>>, <<>> >>                    \* inners that never terminate
     [] name = "long"  -> << <<N(0), N(2), N(4), C(6)>>, <<N(1), N(1), C(3)>>, <<N(2), E(5)>>, <<C(1)>> >>
     [] name = "pair"  -> << <<N(0), N(2), C(2)>>, <<N(1), C(1)>> >>
+    [] name = "zero"  -> << <<N(0), C(0)>>, <<N(0), N(0), C(0)>>, <<C(0)>> >>           \* what a mapper returning a list amounts to
 
-TabNames == {"plain", "short", "error", "never", "long", "pair"}
+TabNames == {"plain", "short", "error", "never", "long", "pair", "zero"}
 GenT2    == {2 * t : t \in GenTimes}
 InnerTLs == {s \in UNION {[1..n -> [t : GenT2, k : {"N", "C", "E"}]] : n \in 0..GenLen} : Sorted(s) /\ TermLast(s)}
 \* Every inner timeline in use sits once in Pool (a constant, evaluated once); a scenario's table is a tuple of
@@ -120,6 +123,7 @@ FMapsOf(o, ni) ==
   ELSE {[v \in 1..ni |-> IF v \in R THEN RAISE ELSE v] : R \in {{}} \cup (IF Faults THEN {{v} : v \in 1..ni} ELSE {})}
 McsOf(o) == IF o = "merge_mc" THEN MCs ELSE {0}
 Dsps == {2 * d + 1 : d \in DspTicks} \cup {NEVER}
+TakeKs == Takes \cup {0}            \* 0 = no take
 
 (* ---- state --------------------------------------------------------------------------------- *)
 VARIABLES phase,  \* "run"; with Lazy first "tab", "fmap", "outer" while the scenario is being put together
@@ -155,14 +159,14 @@ S0 == [act |-> <<>>,      \* active inner subscriptions, in subscription order: 
        amb |-> FALSE]     \* some instant had two lanes due (the scenario has more than one allowed outcome order)
 
 EagerInit == \E o \in Ops, tb \in InnerTables, f \in Flavours :
-               \E m \in McsOf(o), ou \in OutersOf(o, Len(tb)), fm \in FMapsOf(o, Len(tb)), d \in Dsps :
-                 /\ scn = [op |-> o, mc |-> m, tab |-> tb, fl |-> f, outer |-> ou, fmap |-> fm, dsp |-> d]
+               \E m \in McsOf(o), ou \in OutersOf(o, Len(tb)), fm \in FMapsOf(o, Len(tb)), d \in Dsps, tk \in TakeKs :
+                 /\ scn = [op |-> o, mc |-> m, tab |-> tb, fl |-> f, outer |-> ou, fmap |-> fm, dsp |-> d, take |-> tk]
                  /\ phase = "run" /\ now = 0 /\ opos = 1 /\ hpos = [i \in 1..Len(tb) |-> 1] /\ S = S0
 
 \* Lazy: operator, flavour, max_concurrent and dispose instant in Init; then GenN inner timelines one by one, the mapper
 \* table, and the outer timeline event by event.  Every scenario of the eager enumeration over "gen" tables can be built.
-LazyInit == \E o \in Ops, f \in Flavours : \E m \in McsOf(o), d \in Dsps :
-               /\ scn = [op |-> o, mc |-> m, tab |-> <<>>, fl |-> f, outer |-> <<>>, fmap |-> <<>>, dsp |-> d]
+LazyInit == \E o \in Ops, f \in Flavours : \E m \in McsOf(o), d \in Dsps, tk \in TakeKs :
+               /\ scn = [op |-> o, mc |-> m, tab |-> <<>>, fl |-> f, outer |-> <<>>, fmap |-> <<>>, dsp |-> d, take |-> tk]
                /\ phase = "tab" /\ now = 0 /\ opos = 1 /\ hpos = <<>> /\ S = S0
 Init == IF Lazy THEN LazyInit ELSE EagerInit
 
@@ -201,6 +205,11 @@ Finish(s, t) == [s EXCEPT !.done = TRUE, !.todo = <<>>, !.act = <<>>, !.queue = 
                           !.subs = [q \in 1..Len(s.subs) |-> IF s.subs[q].close = NEVER THEN [s.subs[q] EXCEPT !.close = t] ELSE s.subs[q]],
                           !.osub = IF s.osub = NEVER THEN t ELSE s.osub]
 Term(s, t, k, i, e) == Finish(Emit(s, Rec(t, k, 0, i, 0, e)), t)
+\* an element reaches the subscriber; if it is the k-th and the result is cut by take(k), take completes and disposes
+\* the operator in the middle of this notification: everything is released now and nothing is subscribed any more
+NCount(s) == Cardinality({p \in 1..Len(s.out) : s.out[p].k = "N"})
+EmitN(s, t, r) == LET s1 == Emit(s, r) IN
+                  IF scn.take # 0 /\ NCount(s1) = scn.take THEN Term(s1, t, "C", 0, "take") ELSE s1
 
 NSync(idx) == IF scn.fl = "sync" THEN Cardinality({j \in 1..Len(Inner(idx)) : Inner(idx)[j].t = 0}) ELSE 0
 \* subscribe to inner idx: a new lane; its synchronous events are delivered before anything else that is pending
@@ -249,7 +258,7 @@ InnerEv(s, t, sid, j) ==
   LET A == SelectSeq(s.act, LAMBDA a : a.sid = sid) IN
   IF A = <<>> THEN s
   ELSE LET idx == A[1].idx  ev == Inner(idx)[j] IN
-       CASE ev.k = "N" -> Emit(s, Rec(t, "N", sid, idx, j, ""))
+       CASE ev.k = "N" -> EmitN(s, t, Rec(t, "N", sid, idx, j, ""))
          [] ev.k = "E" -> Term(s, t, "E", idx, "inner")
          [] OTHER      -> InnerCompleted(s, t, sid)
 
@@ -389,7 +398,10 @@ RefOutBody(Q) ==
     /\ OutTerm.k = "E" => \E c \in ErrCands(Q, FALSE) : c.t = OutTerm.t /\ c.i = OutTerm.i /\ c.e = OutTerm.e
     /\ \A c \in ErrCands(Q, TRUE) : c.t >= Tend
     \* completion only after the outer and every (the latest) inner completed, and then at that instant
-    /\ OutTerm.k = "C" => (CanComplete(Q) /\ OutTerm.t = CompleteAt(Q))
+    /\ (OutTerm.k = "C" /\ OutTerm.e # "take") => (CanComplete(Q) /\ OutTerm.t = CompleteAt(Q))
+    \* cut by take(k): exactly k elements, the k-th at the instant of the completion
+    /\ OutTerm.e = "take" => (Cardinality(NRecs) = scn.take /\ S.out[Len(S.out) - 1].k = "N" /\ S.out[Len(S.out) - 1].t = OutTerm.t)
+    /\ (scn.take # 0 /\ OutTerm.e # "take") => Cardinality(NRecs) < scn.take
     /\ CanComplete(Q) => CompleteAt(Q) >= Tend
     /\ (OutTerm.k = "U" /\ scn.dsp = NEVER) => (ErrCands(Q, TRUE) = {} /\ ~CanComplete(Q))
 
@@ -416,7 +428,7 @@ FinalInv == (RefScope => LET Q == Sched(NEff) IN RefOutBody(Q) /\ RefSubsBody(Q)
 
 (* ---- export ---------------------------------------------------------------------------------- *)
 ExportLine == PrintT(ToJson([scn |-> [op |-> scn.op, mc |-> scn.mc, fl |-> scn.fl, outer |-> scn.outer, fmap |-> scn.fmap,
-                                            dsp |-> scn.dsp, tab |-> [i \in 1..NI |-> Inner(i)]],
+                                            dsp |-> scn.dsp, take |-> scn.take, tab |-> [i \in 1..NI |-> Inner(i)]],
                                   obs |-> [out |-> S.out, subs |-> S.subs, osub |-> S.osub, amb |-> S.amb]]))
 Export == Final => ExportLine
 AllInv == StateInv /\ (Final => (FinalInv /\ ExportLine))
